@@ -27,6 +27,7 @@ import (
 	"github.com/thanos-io/thanos/internal/cortex/cortexpb"
 	"github.com/thanos-io/thanos/internal/cortex/querier/queryrange"
 	"github.com/thanos-io/thanos/pkg/querysharding"
+	"github.com/thanos-io/thanos/pkg/store/labelpb"
 	"github.com/thanos-io/thanos/pkg/store/storepb"
 	"github.com/thanos-io/thanos/pkg/verifhook/vfkit"
 )
@@ -114,7 +115,7 @@ func (s *vfc44Store) Select(_ context.Context, _ bool, _ *storage.SelectHints, m
 				break
 			}
 		}
-		if ok && m != nil && !m.MatchesLabels(sr.lset) {
+		if ok && m != nil && !vfc44ShardMatch(m, sr.lset) {
 			ok = false
 		}
 		if ok {
@@ -122,6 +123,18 @@ func (s *vfc44Store) Select(_ context.Context, _ bool, _ *storage.SelectHints, m
 		}
 	}
 	return &vfc44Set{ss: out, i: -1}
+}
+
+// vfc44ViaProxy: which of the two real filter paths serves a series. Stores that shard themselves call
+// ShardMatcher.MatchesLabels; for stores that cannot, the proxy filters with MatchesZLabels. A fleet is mixed, so a
+// fixed pseudo-random half of the series (by label set) goes through each path.
+func vfc44ViaProxy(lset labels.Labels) bool { return vfc44Mix(vfc44StrHash(lset.String()))%2 == 0 }
+
+func vfc44ShardMatch(m *storepb.ShardMatcher, lset labels.Labels) bool {
+	if vfc44ViaProxy(lset) {
+		return m.MatchesZLabels(labelpb.ZLabelsFromPromLabels(lset))
+	}
+	return m.MatchesLabels(lset)
 }
 
 type vfc44Set struct {
@@ -149,8 +162,15 @@ func vfc44GenData(rng *rand.Rand) []vfc44Series {
 	na, nb := 1+rng.Intn(4), 1+rng.Intn(3)
 	seen := map[string]bool{}
 	var out []vfc44Series
+	noA := false
 	add := func(name, a, b, c, le string, counter bool, scale float64) {
-		ls := []string{"__name__", name, "a", a, "b", b, "job", "j" + a[len(a)-1:]}
+		ls := []string{"__name__", name, "job", "j" + a[len(a)-1:]}
+		if !noA {
+			ls = append(ls, "a", a)
+		}
+		if b != "" {
+			ls = append(ls, "b", b)
+		}
 		if c != "" {
 			ls = append(ls, "c", c)
 		}
@@ -186,6 +206,10 @@ func vfc44GenData(rng *rand.Rand) []vfc44Series {
 	for tries := 0; len(out) < want && tries < 400; tries++ {
 		a := fmt.Sprintf("a%d", rng.Intn(na))
 		b := fmt.Sprintf("b%d", rng.Intn(nb))
+		if rng.Intn(7) == 0 {
+			b = "" // series without label b
+		}
+		noA = rng.Intn(9) == 0 // series without label a
 		c := ""
 		if rng.Intn(3) != 0 {
 			c = fmt.Sprintf("c%d", rng.Intn(2))
@@ -589,8 +613,14 @@ func vfc44Partition(data []vfc44Series, infos []*storepb.ShardInfo, shards int, 
 		owner := int64(-1)
 		for i := int64(0); i < int64(shards); i++ {
 			m := byIdx[i].Matcher(pool)
-			ok := m.MatchesLabels(sr.lset)
+			okL := m.MatchesLabels(sr.lset)
+			okZ := m.MatchesZLabels(labelpb.ZLabelsFromPromLabels(sr.lset))
+			ok := vfc44ShardMatch(m, sr.lset)
 			m.Close()
+			if okL != okZ {
+				return "partition:MatchesLabels-and-MatchesZLabels-disagree | shard " + map[bool]string{true: "by", false: "without"}[ref.By],
+					fmt.Sprintf("series %s, shard %d of %d (%v): store path MatchesLabels=%v, proxy path MatchesZLabels=%v", sr.lset, i, shards, ref.Labels, okL, okZ)
+			}
 			if ok {
 				if owner >= 0 {
 					return "partition:series-in-two-shards", fmt.Sprintf("series %s is matched by shards %d and %d", sr.lset, owner, i)
@@ -856,7 +886,7 @@ func vfc44SplitIgnoring(data []vfc44Series, infos []*storepb.ShardInfo, pool *sy
 		owner := int64(-1)
 		for _, in := range infos {
 			m := in.Matcher(pool)
-			ok := m.MatchesLabels(sr.lset)
+			ok := vfc44ShardMatch(m, sr.lset)
 			m.Close()
 			if ok {
 				owner = in.ShardIndex
@@ -993,10 +1023,11 @@ var vfc44Funcs = func() []*parser.Function {
 func TestVF_C44(t *testing.T) {
 	r := vfkit.Start(t, "C44")
 	defer r.Finish()
-	r.Rule("case = (series set, program, 2 shard counts from 1..5): 5..60 series over gauges m1/m2, counter req_total, classic histogram lat_bucket{le} with labels a,b,job and optional c, samples every 30 s (some series with holes); " +
+	r.Rule("case = (series set, program, 2 shard counts from 1..5): 5..60 series over gauges m1/m2, counter req_total, classic histogram lat_bucket{le} with labels job and a, b, c (each of a, b, c missing on some series), samples every 30 s (some series with holes); " +
 		"program from promqlsmith (40%) or a hand-written grammar biased to the analyzer's cases (aggregations by/without incl. topk/quantile/count_values, nested aggregations, binary ops with on/ignoring/group_left/right, set ops, label_replace/label_join, histogram_quantile, subqueries, @/offset, selectors without metric name); " +
 		"range query of 15 steps through the real PromQLShardingMiddleware; next = Prometheus PromQL engine over in-memory storage filtered by the real ShardInfo matcher of each shard request; merge by the real codec; " +
-		"oracle: (1) every series matched by exactly one shard and series agreeing on the sharding labels share a shard, (2) merged result == unsharded evaluation (series set, timestamps, values within 1e-9 relative, NaN==NaN); " +
+		"a fixed pseudo-random half of the series is filtered by ShardMatcher.MatchesLabels (stores that shard themselves), the other half by MatchesZLabels (the proxy on behalf of other stores); " +
+		"oracle: (1) for every series and shard index MatchesLabels == MatchesZLabels, every series matched by exactly one shard and series agreeing on the sharding labels share a shard, (2) merged result == unsharded evaluation (series set, timestamps, values within 1e-9 relative, NaN==NaN); " +
 		"programs the engine rejects or the analyzer declines to shard are counted, not cases; distinct = (program, series set hash, shards); non-trivial = the middleware sharded the query and the unsharded result has >= 1 series")
 	n := r.N(1100, 12000)
 	r.Require(int64(n)/2, n/5)
